@@ -187,6 +187,9 @@ def run(ctx):
   pairing(ctx)
   total_order(ctx, 'PAIR/total-then-notes')
   single_explicit(ctx)
+  # "stretching the sequence and its tempo together gives the same steps": the stretch has to reach every time-bearing container
+  from rules import C13 as _c13
+  _c13.fields_named(ctx, cov.time_paths(ctx.S), names=('stretch_note_sequence',), rule='STRETCH/fields-named')
   escapes(ctx, rel, ab)
   validation(ctx)
 
